@@ -141,20 +141,20 @@ type run struct {
 	w   *simnet.World
 	net *netModel
 
-	mu       sync.Mutex
-	seq      int
-	connSeq  int
-	dials    []*dialRec
-	plains   []*plainRec
-	serves   []*serveRec
-	h3s      []*h3Rec
-	connInfo map[net.Conn]*connInfo
-	connDial map[int]*dialRec  // TLS connection id -> the dial that created it
-	connPlain map[int]*plainRec // cleartext connection id -> the dial that created it
-	tlsEP    map[netip.AddrPort]*endpoint
-	plainEP  map[netip.AddrPort]*endpoint
-	panics   []string
-	cur      int // index of the request being executed (sequential)
+	mu              sync.Mutex
+	seq             int
+	connSeq         int
+	dials           []*dialRec
+	plains          []*plainRec
+	serves          []*serveRec
+	h3s             []*h3Rec
+	connInfo        map[net.Conn]*connInfo
+	connDial        map[int]*dialRec  // TLS connection id -> the dial that created it
+	connPlain       map[int]*plainRec // cleartext connection id -> the dial that created it
+	tlsEP           map[netip.AddrPort]*endpoint
+	plainEP         map[netip.AddrPort]*endpoint
+	panics          []string
+	cur             int // index of the request being executed (sequential)
 	defaultPlainNil bool
 }
 
